@@ -55,14 +55,14 @@ def script_from_lasts(sid, lasts):
     return {"id": sid, "names": NAMES, "byz": ["b1"], "values": ["X", "Y"], "actions": acts}
 
 
-def replay(bftsim, scripts, workdir, name):
+def replay(bftsim, scripts, workdir, name, env=None):
     """run scripts through the real code; returns list of per-script line lists"""
     inp = os.path.join(workdir, name + ".scripts.ndjson")
     out = os.path.join(workdir, name + ".trace.ndjson")
     with open(inp, "w") as fh:
         for s in scripts:
             fh.write(json.dumps(s) + "\n")
-    p = vlib.sh([bftsim, "replay", inp, out], timeout=3000, check=False)
+    p = vlib.sh([bftsim, "replay", inp, out], timeout=3000, check=False, env=dict(vlib.GOENV, **env) if env else None)
     if p.returncode != 0:
         raise vlib.Infra("bftsim failed: " + p.stdout[-2000:])
     runs, cur = [], []
